@@ -49,7 +49,7 @@ def work(item):
             if r != 1:
                 hh = [f"{KINDS[k1]}({names[c1]}) on {SIDES[s1]}", f"{KINDS[k2]}({names[c2]}) on {SIDES[s2]}"]
                 col.violation(f"{lib}:{func}:" + ";".join(hh), f"after deepcopy and the edits {hh}: {WHY.get(r, r)}",
-                              {"lib": lib, "function": func, "tuple": list(t), "library_text": LIBS[lib][0]})
+                              {"lib": lib, "function": func, "tuple": list(t), "library_text": str(LIBS[lib][0])})
         col.sample({"library": lib, "function": func, "history": [f"{KINDS[tuples[0][0]]} on {SIDES[tuples[0][1]]}", f"{KINDS[tuples[0][3]]} on {SIDES[tuples[0][4]]}"]}, 1)
     except Exception as e:
         import traceback
@@ -68,7 +68,7 @@ def main():
     from props.hflat import LIBS
     from vk.allsat import all_models
     import time
-    plan = [("comp", "hist"), ("conn", "hist"), ("alias", "hist"), ("comp", "hist_cc")]
+    plan = [("comp", "hist"), ("conn", "hist"), ("alias", "hist"), ("assembled", "hist"), ("comp", "hist_cc"), ("assembled", "hist_cc")]
     if a.tier == "thorough":
         plan += [("redecl", "hist"), ("func", "hist"), ("conn", "hist_cc"), ("alias", "hist_cc"), ("redecl", "hist_cc")]
     items = []
